@@ -510,9 +510,17 @@ impl Node {
     }
 
     pub fn make_reference(&self) -> ExternalReference {
+        #[cfg(edp_rs_verif)]
+        edp_client::verif_hooks::yield_point(11);
         let id0 = self.reference_counter.fetch_add(1, Ordering::SeqCst);
+        #[cfg(edp_rs_verif)]
+        edp_client::verif_hooks::yield_point(12);
         let id1 = self.reference_counter.fetch_add(1, Ordering::SeqCst);
+        #[cfg(edp_rs_verif)]
+        edp_client::verif_hooks::yield_point(13);
         let id2 = self.reference_counter.fetch_add(1, Ordering::SeqCst);
+        #[cfg(edp_rs_verif)]
+        edp_client::verif_hooks::yield_point(14);
         ExternalReference::new(
             self.name.clone(),
             self.creation.load(Ordering::SeqCst),
